@@ -503,14 +503,14 @@ def extrema(curext, mm, maxcase, mincase=None, casenum=None):
             return
 
         # keep sign but compare based on absolute
-        j = nan_argmax(abs(curext.ext), abs(mm.ext)).nonzero()[0]
+        j = nan_argmax(abs(curext.ext[:, 0]), abs(mm.ext[:, 0])).nonzero()[0]
         if j.size > 0:
             for i in j:
                 curext.maxcase[i] = maxcase[i]
             curext.ext[j, 0] = mm.ext[j, 0]
             _put_time(curext, mm, j, 0, 0)
 
-        j = nan_argmin(abs(curext.ext), abs(mm.ext)).nonzero()[0]
+        j = nan_argmin(abs(curext.ext[:, 1]), abs(mm.ext[:, 0])).nonzero()[0]
         if j.size > 0:
             for i in j:
                 curext.mincase[i] = maxcase[i]
